@@ -73,6 +73,18 @@ pub const IRREGULARITIES: &[&str] = &[
     "- /",
     "-",
     "\u{2028}",
+    // tokens whose *value* the lexer or a grammar action may refuse: the refusal must be an error, not an end of input
+    "170141183460469231731687303715884105728",
+    "340282366920938463463374607431768211456 ) junk (",
+    "/- build 99999999999999999999999999999999999999999 -/",
+    "1e999999",
+    "'''",
+    "'\\'",
+    "\u{a0}",
+    "\u{b}",
+    "\r\n",
+    "\u{feff}",
+    "\"\\u{110000}\"",
     "\u{feff}",
     "-/-/",
     "/--/ -/",
@@ -181,7 +193,7 @@ fn insert(text: &str, at: usize, what: &str, pad: usize) -> String {
 pub fn run(ctx: &Ctx) -> Report {
     let mut report = Report::new(
         "bases = every repository source (lib/**, docs/spell/**) and 30 grammar snippets; cases = base with 0–2 \
-         lexical irregularities (33 kinds) inserted at token gaps with 4 paddings, or appended; small bases \
+         lexical irregularities (44 kinds) inserted at token gaps with 4 paddings, or appended; small bases \
          exhaustively (all gaps × all irregularities × paddings); oracle = independent scanner: accepted ⇒ root \
          span covers first..last non-comment token; non-trivial = accepted text containing a comment or an \
          irregularity; distinct by text hash",
